@@ -5,6 +5,34 @@ COMMON_ASSUME = [
 ]
 NOT_APPLICABLE = {}
 PROPS = {
+    "C14": {
+        "claim": "A Coq transcription check_prog of the type checker (check_decs, check_defs, check_cycle, validate_decs, check_actor and the grammar's label / method uniqueness tests) is compared with the implementation on programs that are well-formed by construction (must be accepted) and on single-fault mutants of them (undefined name, duplicate definition, alias cycles of length 1-5 and chains into cycles, duplicate record/variant ids, non-function methods through alias chains at top level and nested, oneway with result, two annotations, duplicate method, main actor that is not a service, constructor over a non-service), plus text-level cases the id-based AST cannot express (hash-colliding names, name vs numeric id, duplicate argument names, shorthand numbering collisions). Coq theorems (closed): every environment check_prog accepts is closed, productive, class-free with unique field ids (wf_env), every name traces to a constructor, the main actor's service type is closed -- i.e. acceptance establishes exactly the hypotheses of the theorems of C03/C04/C05/C10.",
+        "note": 'The converse direction (everything well-formed per the spec is accepted) and the exactness for arbitrary programs are established only by the differential run and the must-accept/must-reject predicates; imports (check_file) are not modelled. A direct predicate also runs trace_type / subtype / as_service on every accepted program and requires them to terminate without panic.',
+        "props_file": "props/C14.v",
+        "shards": (4, 16),
+        "rule": 'cases: 120 (x15 thorough) generated programs (0-5 definitions renamed to odd identifiers such as class, return, Self, _x; fields and methods named from a pool of keywords, quoted and non-ASCII names; recursion, aliases, references; actor as service, through a definition, or as service constructor) each with 13 single-fault mutants, and 29 fixed text-level programs. Non-trivial = non-empty environment or any mutant.',
+        "assumptions": COMMON_ASSUME,
+        "trusted_base": ["modelled, not verified: logos-generated lexer and LALRPOP-generated parser tables/driver (exercised by the fuzz and differential streams only), the pretty crate's layout engine"],
+    },
+    "C13": {
+        "claim": "Fuzzing under catch_unwind, in debug and release builds, of all seven text entry points (program + check_prog, type, type list, init args + check_init_args, value, argument list, test script): token soups over the lexer's alphabet including boundary numerals (4294967295/6, 0X.., long digit strings, odd underscores, malformed floats), malformed escapes, unterminated strings and comments; grammar-directed sentences with one token deleted, duplicated or replaced; nesting up to 128. Coq theorems (closed) for the semantic actions whose arithmetic could go wrong: the record-field numbering with the tuple shorthand (both grammars, compared with the implementation on boundary ids) never wraps: every assigned id is below 2^32, the result is strictly ascending, an unlabelled field after 2^32-1 is an error; and the string sub-lexer accepts everything the printer emits.",
+        "note": "The logos DFAs and LALRPOP tables are generated code outside the model: 'no input makes them panic' is supported by the fuzz stream only (a search, not a proof) -- this property is therefore only partially at proof level. Stack depth beyond nesting 128 is out of scope per the property text.",
+        "props_file": "props/C13.v",
+        "shards": (4, 16),
+        "release": True,
+        "rule": 'cases: 150 (x15) label lists for the numbering action (ids 2^32-1, 2^32-2, small ids, names, unlabelled fields); 1500 (x15) token soups of 1-14 tokens through a random entry point; 300 (x15) mutated sentences through the program and init-args entry points; deep nesting 10..128 of opt / record / vec through type, program and argument entry points; debug and release. Non-trivial: all fuzz cases.',
+        "assumptions": COMMON_ASSUME,
+        "trusted_base": ["modelled, not verified: logos-generated lexer and LALRPOP-generated parser tables/driver (exercised by the fuzz and differential streams only), the pretty crate's layout engine"],
+    },
+    "C12": {
+        "claim": 'Direct predicate on the implementation for generated well-typed programs: print with the type-level printer (pretty::candid::compile) and with the syntax-tree printer (syntax::pretty_print), parse and type-check the text, and require the same definition names, every definition and the main service structurally equal to the originals (types::subtype::equal on the merged environments), service_equal on the two texts, and deterministic output. Coq theorems (closed) for what the predicate can only sample: EVERY name the printers emit -- quoted (any Unicode scalars, keywords) or bare -- lexes back to exactly that name, bare names are ASCII identifiers that are not keywords, and the structural-equality decision used for the comparison is correct (eq_dec).',
+        "note": "The printers' layout and the grammar above the token level are not modelled in Coq: the program-level round trip is a predicate on generated programs, not a theorem. Environments exported from Rust types (export_service!) are not covered here.",
+        "props_file": "props/C12.v",
+        "shards": (4, 16),
+        "rule": 'cases: 150 (x15) generated programs as for C14 (odd definition names, keyword / quoted / non-ASCII field and method names, recursion, aliases of functions and services, service constructors, with and without main service). Non-trivial = non-empty environment or a main service.',
+        "assumptions": COMMON_ASSUME,
+        "trusted_base": ["modelled, not verified: logos-generated lexer and LALRPOP-generated parser tables/driver (exercised by the fuzz and differential streams only), the pretty crate's layout engine"],
+    },
     "C11": {
         "claim": "Coq theorems (closed, no axioms) over executable models of the printers' escaping (char::escape_debug with the NUL repair, "
                  "ident_string, the two-branch blob printer, pp_num_str) and of the lexer's string/number sub-lexers (logos' longest-match "
